@@ -1350,6 +1350,13 @@ int32 matrixResumeSession(ssl_t *ssl)
     {
         return PS_ARG_FAIL;
     }
+    if (ssl->sessionIdLen != SSL_MAX_SESSION_ID_SIZE)
+    {
+        /* Every id we issue is SSL_MAX_SESSION_ID_SIZE bytes long.  The
+           comparison below covers the presented length only, so a
+           truncated id (down to the 4 index bytes) would match. */
+        return PS_FAILURE;
+    }
     id = ssl->sessionId;
 
     i = (id[3] << 24) + (id[2] << 16) + (id[1] << 8) + id[0];
